@@ -25,7 +25,9 @@ RULE = (
     "exh: every protein x token-peptide incidence matrix with <=P proteins and <=Q peptides (no empty protein), "
     "each read in 2 entry orders; perms: all entry orders of random <=5-protein structures; random: up to 60 "
     "proteins x 80 peptides with planted subset chains, diamonds, equal sets and decoy mirrors; seqs: random "
-    "residue sequences with random digest parameters (peptide sets taken from mokapot.digest); hashseed: the "
+    "residue sequences with random digest parameters (peptide sets taken from mokapot.digest), each database then "
+    "read again in the same process with exactly one digestion setting changed and once more with the first settings "
+    "(history_reads: nothing remembered from an earlier call may leak into a later one); hashseed: the "
     "same structures under PYTHONHASHSEED 0..3. Non-trivial = some protein's peptide set is contained in "
     "another's or some peptide occurs in >=2 proteins; distinct = distinct incidence structure."
     " The protein map may list no decoy entry as a target."
@@ -285,6 +287,35 @@ def run_seqs(case):
             evals += 2
             if _nontrivial(prot_peps):
                 nt += 1
+            # history: the same database read again in this process with exactly one digestion setting changed
+            # (nothing remembered from the earlier call may leak into the later one), then with the first settings again
+            which = str(rng.choice(["semi", "missed_cleavages", "min_length", "max_length", "clip_nterm_methionine", "enzyme"]))
+            kw2 = dict(kw)
+            if which in ("semi", "clip_nterm_methionine"):
+                kw2[which] = not kw[which]
+            elif which == "missed_cleavages":
+                kw2[which] = (kw[which] + 1) % 3
+            elif which == "min_length":
+                kw2[which] = kw[which] + 1 if kw[which] < 6 else 2
+            elif which == "max_length":
+                kw2[which] = kw[which] + 5 if kw[which] < 20 else 8
+            else:
+                kw2[which] = "[KR]" if kw[which] != "[KR]" else "K(?!P)"
+            for kwx, tag in ((kw2, "changed:" + which), (kw, "back:" + which)):
+                pp = {}
+                for nm, s in entries:
+                    peps = mokapot.digest(s, enzyme_regex=kwx["enzyme"], missed_cleavages=kwx["missed_cleavages"],
+                                          clip_nterm_methionine=kwx["clip_nterm_methionine"], min_length=kwx["min_length"],
+                                          max_length=kwx["max_length"], semi=kwx["semi"])
+                    if peps:
+                        pp[nm] = set(peps)
+                if not any(not nm.startswith("rev_") for nm in pp):
+                    break
+                _check_structure(res, d, pp, entries, prefix="rev_", kw=kwx, where="seqs_history/" + tag,
+                                 orders=[list(range(n))])
+                res.count("history_reads")
+                res.count("history_" + which)
+                evals += 1
     res["evals"] = evals
     res["distinct_n"] = nt
     res["nontrivial"] = nt > 0
